@@ -99,7 +99,7 @@ def value_okb(case, ops, io):
 
 
 def run(chk, replay=None):
-    proof = proof_check_streams(PID, "C09Streams")
+    proof = proof_check_streams(PID, "C09Streams", extra=("C09Connect",))
     drv = build_driver(); exe = build_harness("devices"); cfg = harness_config(exe)
     if replay:
         r = json.load(open(replay)); c = r["case"]
